@@ -10,7 +10,7 @@ TIE = ["Nsq.Tie.Restart"]
 PROPS = ["Nsq.Props.C05"]
 HARNESS = ["e5/replay_test.go", "e5/life_test.go", "e5/restart_test.go"]
 
-F9 = [("f9_pump_holds", "shutdown-while-pump-holds-message", None),
+F9 = [("f9_pump_holds", "shutdown-while-pump-holds-message", "pumpjoin"),
       ("f9_put_after_exit_check", "shutdown-while-publish-past-exit-check", "barrier"),
       ("exit_races_req", "shutdown-while-answer-in-progress:req", "anslock"),
       ("exit_races_req_deferred", "shutdown-while-answer-in-progress:req-deferred", "anslock"),
@@ -30,7 +30,9 @@ def tree_shape(ctx):
         return re.findall(r'"([^"]*)"', m.group(1)) if m else []
     shape = {"barrier": fact("topicExitHead")[:3] == ["Lock", "CompareAndSwapInt32", "Unlock"],
              "anslock": fact("reqCalls")[:3] == ["RLock", "RUnlock", "popInFlightMessage"] and
-                        fact("touchCalls")[:3] == ["RLock", "RUnlock", "popInFlightMessage"]}
+                        fact("touchCalls")[:3] == ["RLock", "RUnlock", "popInFlightMessage"],
+             "pumpjoin": fact("tcpCloseCalls") == ["Range", "Wait"] and
+                         fact("ioLoopJoin") == ["assign messagePumpDoneChan := make(chan struct{})"]}
     ctx.corr["race_model_of_tree"] = shape
     return shape
 
